@@ -59,6 +59,7 @@ End PhaseTools.
 Section C03.
 Variables (P b : Z) (n rin cols_out msize a_size dsize dnum : nat).
 Variable a : cols_t.                       (* the rin mask columns of the input (key radix) *)
+Variable res0 : cols_t.                    (* prior content of the accumulator: irrelevant (gglwe_product_dft zeroes it) *)
 Variable K : pmat.
 Variable Sk : nat -> list Z.               (* target secret family, Sk 0 = 1 *)
 Variables (s_in : nat -> list Z) (e I : nat -> nat -> list Z).
@@ -77,14 +78,14 @@ Hypothesis key_row : key_rows_ok P b n rin cols_out msize dsize dnum K Sk s_in e
 
 (* (3b) the product part of the key switch (gglwe_product_dft) *)
 Theorem C03_keyswitch_phase_lemma :
-  exists res, gadget_product n cols_out msize (zcols n cols_out msize) a a_size dsize dnum msize true K = Some res /\
+  exists res, gadget_product n cols_out msize res0 a a_size dsize dnum msize true K = Some res /\
     wf_cols n cols_out msize res /\
     phase_f P b n cols_out msize (limbs_of res) Sk
     = padd (padd (psumf n (fun ci => pmul (pval_used P b n a_size dsize dnum (acol n a) ci) (s_in ci)) rin)
                  (gadget_err P b n rin cols_out msize dsize dnum (acol n a) K Sk e))
            (pscale (2 ^ P) (gadget_int b n rin cols_out msize dsize dnum (acol n a) K Sk I)).
 Proof.
-  destruct (gadget_product_spec n rin cols_out msize a_size dsize dnum true a K Ha Hd Hdrop) as [res [E1 [E2 E3]]].
+  destruct (gadget_product_spec n rin cols_out msize a_size dsize dnum true a K res0 Ha Hd Hdrop (or_introl eq_refl)) as [res [E1 [E2 E3]]].
   exists res. split; [exact E1|]. split; [exact E2|].
   rewrite (phase_f_ext P b n cols_out msize (limbs_of res)
              (gp_spec n rin cols_out msize a_size dsize dnum true (acol n a) K) Sk) by (intros; apply E3; assumption).
@@ -97,6 +98,7 @@ End C03.
 Section C03Internal.
 Variables (P b : Z) (n rin cols_out msize a_size dsize dnum : nat).
 Variable ct : cols_t.                      (* the input ciphertext: body :: rin mask columns (key radix) *)
+Variable res0 : cols_t.                    (* prior content of the accumulator: irrelevant *)
 Variable K : pmat.
 Variable Sk : nat -> list Z.
 Variables (s_in : nat -> list Z) (e I : nat -> nat -> list Z).
@@ -118,7 +120,7 @@ Hypothesis key_row : key_rows_ok P b n rin cols_out msize dsize dnum K Sk s_in e
 
 (* glwe_keyswitch_internal = product of the mask columns + the body (min(msize, a_size) limbs of it) *)
 Theorem C03_keyswitch_internal_phase_lemma :
-  exists ks, keyswitch_internal n cols_out msize (zcols n cols_out msize) ct a_size dsize dnum msize K = Some ks /\
+  exists ks, keyswitch_internal n cols_out msize res0 ct a_size dsize dnum msize K = Some ks /\
     wf_cols n cols_out msize ks /\
     phase_f P b n cols_out msize (limbs_of ks) Sk
     = padd (padd (padd (pval P b n (acol n ct 0) (Nat.min msize a_size))
@@ -126,7 +128,7 @@ Theorem C03_keyswitch_internal_phase_lemma :
                  (gadget_err P b n rin cols_out msize dsize dnum (acol n (tl ct)) K Sk e))
            (pscale (2 ^ P) (gadget_int b n rin cols_out msize dsize dnum (acol n (tl ct)) K Sk I)).
 Proof.
-  destruct (C03_keyswitch_phase_lemma P b n rin cols_out msize a_size dsize dnum (tl ct) K Sk s_in e I
+  destruct (C03_keyswitch_phase_lemma P b n rin cols_out msize a_size dsize dnum (tl ct) res0 K Sk s_in e I
               (wf_tl n rin a_size ct Hct) HK Hd Hdrop HS Hsin He HI Hb HP HP2 key_row) as [res [E1 [E2 E3]]].
   unfold keyswitch_internal. rewrite E1.
   destruct E2 as [Hl Hc]. destruct res as [|r0 rt]; [cbn in Hl; lia|]. cbn [length] in Hl.
@@ -286,6 +288,7 @@ Qed.
 
 Variables (P b : Z) (rin cols_out msize a_size dsize dnum : nat).
 Variable ct : cols_t.
+Variable res0 : cols_t.
 Variable K : pmat.
 Variables (Sk St : nat -> list Z).
 Variables (s_in : nat -> list Z) (e I : nat -> nat -> list Z).
@@ -307,7 +310,7 @@ Hypothesis HP2 : Z.of_nat dnum * Z.of_nat dsize * b <= P.
 Hypothesis key_row : key_rows_ok P b n rin cols_out msize dsize dnum K Sk s_in e I.
 
 Theorem C03_automorphism_phase_lemma :
-  exists ks, keyswitch_internal n cols_out msize (zcols n cols_out msize) ct a_size dsize dnum msize K = Some ks /\
+  exists ks, keyswitch_internal n cols_out msize res0 ct a_size dsize dnum msize K = Some ks /\
     wf_cols n cols_out msize ks /\
     phase_f P b n cols_out msize (limbs_of (map (map sg) ks)) St
     = padd (padd (sg (padd (pval P b n (acol n ct 0) (Nat.min msize a_size))
@@ -315,7 +318,7 @@ Theorem C03_automorphism_phase_lemma :
                  (sg (gadget_err P b n rin cols_out msize dsize dnum (acol n (tl ct)) K Sk e)))
            (pscale (2 ^ P) (sg (gadget_int b n rin cols_out msize dsize dnum (acol n (tl ct)) K Sk I))).
 Proof.
-  destruct (C03_keyswitch_internal_phase_lemma P b n rin cols_out msize a_size dsize dnum ct K Sk s_in e I
+  destruct (C03_keyswitch_internal_phase_lemma P b n rin cols_out msize a_size dsize dnum ct res0 K Sk s_in e I
               Hct HK Hn Hco Hd Hdrop HS HS0 Hsin He HI Hb HP HP2 key_row) as [ks [E1 [E2 E3]]].
   exists ks. split; [exact E1|]. split; [exact E2|].
   rewrite (phase_of_automorphism P b cols_out msize ks Sk St E2) by auto.
@@ -419,6 +422,7 @@ End SkExt.
 Section C03PhaseVal.
 Variables (P b : Z) (n rin msize a_size dsize dnum : nat).
 Variable ct : cols_t.
+Variable res0 : cols_t.
 Variable K : pmat.
 Variable sk_out : list (list Z).
 Variables (s_in : nat -> list Z) (e I : nat -> nat -> list Z).
@@ -439,7 +443,7 @@ Hypothesis HP2 : Z.of_nat dnum * Z.of_nat dsize * b <= P.
 Hypothesis key_row : key_rows_ok P b n rin cols_out msize dsize dnum K Sk s_in e I.
 
 Theorem C03_keyswitch_internal_phase_val_lemma :
-  exists ks, keyswitch_internal n cols_out msize (zcols n cols_out msize) ct a_size dsize dnum msize K = Some ks /\
+  exists ks, keyswitch_internal n cols_out msize res0 ct a_size dsize dnum msize K = Some ks /\
     phase_val P b n sk_out ks
     = padd (padd (padd (pval P b n (acol n ct 0) (Nat.min msize a_size))
                        (psumf n (fun ci => pmul (pval_used P b n a_size dsize dnum (acol n (tl ct)) ci) (s_in ci)) rin))
@@ -447,7 +451,7 @@ Theorem C03_keyswitch_internal_phase_val_lemma :
            (pscale (2 ^ P) (gadget_int b n rin cols_out msize dsize dnum (acol n (tl ct)) K Sk I)).
 Proof.
   pose proof (sk_ext_length n sk_out Hn Hsk) as HS.
-  destruct (C03_keyswitch_internal_phase_lemma P b n rin cols_out msize a_size dsize dnum ct K Sk s_in e I
+  destruct (C03_keyswitch_internal_phase_lemma P b n rin cols_out msize a_size dsize dnum ct res0 K Sk s_in e I
               Hct HK Hn ltac:(unfold cols_out; lia) Hd Hdrop HS eq_refl Hsin He HI Hb HP HP2 key_row) as [ks [E1 [E2 E3]]].
   exists ks. split; [exact E1|].
   rewrite (phase_val_phase_f P b n sk_out ks msize Hn E2) by (intros; apply Hsk, nth_In; assumption).
